@@ -352,6 +352,9 @@ def check_C12(rep, fl):
     check_closed_first(rep, fl)
     check_close_sequence(rep, fl)
     check_closed_monotonic(rep, fl)
+    # "every number of handles/clones": the flag and the channel ends are the ones of the origin handle
+    import props_cache
+    props_cache.check_handle_sharing(rep, fl, fields=("is_closed", "stop_tx", "insert_buf_tx", "clear_tx", "policy", "store"))
     check_worker_exit(rep, fl)
     check_recv_loops(rep, fl)
     check_unwraps(rep, fl)
@@ -503,15 +506,51 @@ def signal_type_releases_on_drop(fl, field):
     return type_releases_on_drop(fl, elem, "the clear channel")
 
 
+def _recv_failed_literal(a, pol, res):
+    """The literal says that the receive `res` failed: a test on its error value (`Err(TryRecvError::Empty)`: the
+    select's default arm), the `?` that propagates its error, `res is Err`, `!res.is_ok()`, `res.is_err()`."""
+    if mentions(a, ("downcast", res, "Err")) and pol:
+        return True
+    if a[0] == "variant" and a[2] == "Break" and pol and mentions(a, res):
+        return True
+    p2 = pol
+    while a[0] == "un" and a[1] == "Not":
+        a = a[2]
+        p2 = not p2
+    if a[0] == "variant" and a[1] == res and ((a[2] == "Err" and p2) or (a[2] == "Ok" and not p2)):
+        return True
+    if is_call(a, "Result::is_ok") and norm(a[2][0]) == res and p2 is False:
+        return True
+    if is_call(a, "Result::is_err") and norm(a[2][0]) == res and p2 is True:
+        return True
+    return False
+
+
+def _consistent(es):
+    """No enum value is known to be two different variants at once (copies of one value are tested under
+    different names; the expanded valuation shows the contradiction)."""
+    seen = {}
+    for a, v in es.lits:
+        if a[0] == "variant" and v is True:
+            if seen.setdefault(a[1], a[2]) != a[2]:
+                return False
+    for a, v in es.lits:
+        if a[0] == "variant" and v is False and seen.get(a[1]) == a[2]:
+            return False
+    return True
+
+
 def drain_is_exhaustive(body, drain_bi, drain_t):
     """The loop around the drain receive is left only when the receive failed (buffer empty /
-    closed): every exit edge of the loop lies on the Err side of that receive."""
+    closed): every exit edge of the loop lies on the Err side of that receive - the edge's own test says so,
+    or every path that reaches it has decided so before (a `match` on a value rebuilt from the result)."""
     loop = {b for b in body.live_blocks() if drain_bi in body.reachable(b) and b in body.reachable(drain_bi)}
     if not loop:
         return False
     res = norm(body.call_expr(drain_t, True))
     ok = True
     n_exit = 0
+    at = None
     for b in loop:
         for s2 in body.succs(b):
             if s2 in loop:
@@ -525,22 +564,18 @@ def drain_is_exhaustive(body, drain_bi, drain_t):
             for tgt, atom, pol in edge_literals(body, b):
                 if tgt != s2 or atom is None:
                     continue
-                a = norm(body.expand(atom))
-                # a test on the error value of the receive (`Err(TryRecvError::Empty)`: the select's default arm),
-                # or the `?` that propagates the receive's error
-                if mentions(a, ("downcast", res, "Err")) and pol:
+                if _recv_failed_literal(norm(body.expand(atom)), pol, res):
                     failed = True
-                if a[0] == "variant" and a[2] == "Break" and pol and mentions(a, res):
-                    failed = True
-                p2 = pol
-                while a[0] == "un" and a[1] == "Not":
-                    a = a[2]
-                    p2 = not p2
-                if a[0] == "variant" and a[1] == res and ((a[2] == "Err" and p2) or (a[2] == "Ok" and not p2)):
-                    failed = True
-                if is_call(a, "Result::is_ok") and norm(a[2][0]) == res and p2 is False:
-                    failed = True
-                if is_call(a, "Result::is_err") and norm(a[2][0]) == res and p2 is True:
+                    continue
+                if at is None:
+                    try:
+                        at, _entry = dataflow(body)
+                    except TooManyStates:
+                        at = {}
+                sts = [s.with_lit(atom, pol) for s in at.get((b, term_idx(body, b)), set())]
+                sts = [expand_state(body, s) for s in sts if s is not None]
+                sts = [s for s in sts if _consistent(s)]
+                if sts and all(any(_recv_failed_literal(a, v, res) for a, v in s.lits) for s in sts):
                     failed = True
             ok = ok and failed
     return ok and n_exit >= 1
@@ -925,6 +960,8 @@ def check_C11(rep, fl):
     check_clear_affinity(rep, fl, rule="R11.3")
     props_store.check_sweeper(rep, fl)
     import props_cache
+    # clear() on any handle empties the one cache: clones share the parts that are reset and the request channel
+    props_cache.check_handle_sharing(rep, fl, fields=("clear_tx", "store", "policy", "metrics"))
     props_cache.check_metrics_core(rep, fl)
     import props_policy
     props_policy.check_balance(rep, fl, props_policy.slfu_writers(fl.facts))
